@@ -12,15 +12,13 @@ import (
 // ParseFile parses a DSL file and returns a slice of Packet models or an error.
 func ParseFile(filename string) (interface{}, error) {
 	// Create a new parser by reading the file
-	parser, _, err := NewPacketDslParserByFile(filename)
+	parser, stream, err := NewPacketDslParserByFile(filename)
 	if err != nil {
 		return nil, err
 	}
 	listener := NewSyntaxErrorListener()
-	parser.RemoveErrorListeners()
-	parser.AddErrorListener(listener)
 	// Invoke the root rule 'Packet' to parse the file
-	tree := parser.Packet()
+	tree := parseWithListener(parser, stream, listener)
 	if listener.HasErrors() {
 		return nil, fmt.Errorf("syntax errors found: %v", listener.Errors)
 	}
